@@ -1,6 +1,167 @@
+import Proofs.C18.Fee
+import Proofs.C18.Float
 /-!
-# C18 — property theorems only (see DESIGN.md §3 C18).
+# C18 — sizes, fees and amounts are exact integer accounting (DESIGN §3 C18)
+
+Property theorems only.  `Gen.Fee.*` is the *translated* source (btclib/fee.py, amount.py,
+tx/tx.py, block/block.py, psbt/psbt.py — regenerated from /repo on every run); `Btc.C18.*` are the
+hand-written entry points (FeeRate guard, `is_segwit`) and the transcription of Bitcoin Core's
+`GetDustThreshold`, tied to the code by the `fee.*` correspondence streams.
 -/
 namespace Props.C18
+open Btc Btc.Py Btc.C18
+
+/-! ## T1 — weight and virtual size -/
+
+/-- `Tx.weight` and `Block.weight` are three times the stripped size plus the total size. -/
+theorem weight_formula (stripped total : Int) :
+    Gen.Fee.tx_weight stripped total = 3 * stripped + total ∧
+    Gen.Fee.block_weight stripped total = 3 * stripped + total := by
+  unfold Gen.Fee.tx_weight Gen.Fee.block_weight
+  constructor <;> omega
+
+/-- `vsize = math.ceil(weight / 4)` is a FLOAT division in the source (Tx, Block, Psbt estimate
+    alike).  Modelled as IEEE-754 (`Btc.PyFloat`), it is the exact integer ceiling for every weight
+    below 2^53 — far above any consensus weight (4·10^6). -/
+theorem vsize_exact_below_2_53 (w : Int) (h0 : 0 ≤ w) (h : w < 2 ^ 53) :
+    Gen.Fee.tx_vsize w = .ok ((w + 3) / 4) ∧
+    Gen.Fee.block_vsize w = .ok ((w + 3) / 4) ∧
+    Gen.Fee.psbt_vsize_estimate w = .ok ((w + 3) / 4) := by
+  obtain ⟨n, rfl⟩ := Int.eq_ofNat_of_zero_le h0
+  have hn : n < 2 ^ 53 := by omega
+  have e := ceilTrueDivPow2_exact n hn
+  have c : (((n + 3) / 4 : Nat) : Int) = ((n : Int) + 3) / 4 := by omega
+  unfold Gen.Fee.tx_vsize Gen.Fee.block_vsize Gen.Fee.psbt_vsize_estimate
+  simp only [e, c]
+  exact ⟨trivial, trivial, trivial⟩
+
+/-- … and the value it returns is the ceiling: `4·vsize ≥ weight > 4·(vsize − 1)`. -/
+theorem vsize_is_ceiling (w v : Int) (h0 : 0 ≤ w) (h : w < 2 ^ 53) (hv : Gen.Fee.tx_vsize w = .ok v) :
+    4 * v ≥ w ∧ w > 4 * (v - 1) := by
+  rw [(vsize_exact_below_2_53 w h0 h).1] at hv
+  cases hv
+  omega
+
+-- the bound is sharp: at 2^53 + 1 the float quotient loses the remainder and the source's formula
+-- answers one less than the ceiling (the model reproduces it; `gen.Fee.tx_vsize` checks the real code there)
+example : Gen.Fee.tx_vsize (2 ^ 53 + 1) = .ok (2 ^ 51) := by decide
+example : ((2 : Int) ^ 53 + 1 + 3) / 4 = 2 ^ 51 + 1 := by decide
+example : Gen.Fee.tx_vsize 561 = .ok 141 := by decide
+
+/-! ## T2 — fee = ⌈rate · vsize / 1000⌉, package fee, dust threshold -/
+
+/-- `fee_from_vsize` answers exactly on non-negative sizes and rates and refuses the rest with the
+    library's ValueError. -/
+theorem fee_domain (v r : Int) :
+    (0 ≤ v ∧ 0 ≤ r → ∃ f, feeFromVsize v r = .ok f) ∧
+    (¬ (0 ≤ v ∧ 0 ≤ r) → feeFromVsize v r = .error .value) := by
+  constructor
+  · rintro ⟨hv, hr⟩
+    obtain ⟨n, rfl⟩ := Int.eq_ofNat_of_zero_le hv
+    obtain ⟨m, rfl⟩ := Int.eq_ofNat_of_zero_le hr
+    exact ⟨_, feeFromVsize_nat n m⟩
+  · intro h
+    unfold feeFromVsize feeRate
+    by_cases hr : r < 0
+    · simp [hr]; rfl
+    · have hv : v < 0 := by omega
+      simp only [hr, if_false]
+      exact fee_from_vsize_neg v r hv
+
+/-- The fee is the exact ceiling of rate·vsize/1000: never a satoshi short, never one too many. -/
+theorem fee_exact_ceiling (v r f : Int) (h : feeFromVsize v r = .ok f) :
+    0 ≤ f ∧ f * 1000 ≥ r * v ∧ r * v > (f - 1) * 1000 := by
+  by_cases hd : 0 ≤ v ∧ 0 ≤ r
+  · obtain ⟨hv, hr⟩ := hd
+    obtain ⟨n, rfl⟩ := Int.eq_ofNat_of_zero_le hv
+    obtain ⟨m, rfl⟩ := Int.eq_ofNat_of_zero_le hr
+    rw [feeFromVsize_nat] at h
+    cases h
+    have hp : (m : Int) * (n : Int) = ((m * n : Nat) : Int) := by simp
+    rw [hp]
+    have := ceilK_spec (m * n)
+    generalize m * n = p at *
+    generalize ceilK p = c at *
+    omega
+  · rw [(fee_domain v r).2 hd] at h; cases h
+
+/-- Monotone in both arguments: a larger transaction or a higher rate never owes less. -/
+theorem fee_monotone (v v' r r' f f' : Int) (hv : v ≤ v') (hr : r ≤ r')
+    (h : feeFromVsize v r = .ok f) (h' : feeFromVsize v' r' = .ok f') : f ≤ f' := by
+  have d : 0 ≤ v ∧ 0 ≤ r := by
+    by_cases hd : 0 ≤ v ∧ 0 ≤ r
+    · exact hd
+    · rw [(fee_domain v r).2 hd] at h; cases h
+  obtain ⟨n, rfl⟩ := Int.eq_ofNat_of_zero_le d.1
+  obtain ⟨m, rfl⟩ := Int.eq_ofNat_of_zero_le d.2
+  obtain ⟨n', rfl⟩ := Int.eq_ofNat_of_zero_le (show 0 ≤ v' by omega)
+  obtain ⟨m', rfl⟩ := Int.eq_ofNat_of_zero_le (show 0 ≤ r' by omega)
+  rw [feeFromVsize_nat] at h h'
+  cases h; cases h'
+  have : m * n ≤ m' * n' := Nat.mul_le_mul (by omega) (by omega)
+  have := ceilK_mono this
+  omega
+
+/-- `package_fee` (child pays for parent): defined exactly when sizes and rate are non-negative and
+    the ancestors' fee is a valid amount; the answer is never below the child's own fee, together
+    with what the ancestors paid it covers the package's fee, and it is the smaller of the two that
+    does both. -/
+theorem package_fee_covers (v r av af p : Int) (h : packageFee v r av af = .ok p) :
+    0 ≤ v ∧ 0 ≤ r ∧ 0 ≤ av ∧ 0 ≤ af ∧ af ≤ 2100000000000000 ∧
+    ∃ own pkg, feeFromVsize v r = .ok own ∧ feeFromVsize (v + av) r = .ok pkg ∧
+      own ≤ p ∧ pkg ≤ p + af ∧ (p = own ∨ p + af = pkg) := by
+  unfold packageFee feeRate at h
+  by_cases hr : r < 0
+  · simp [hr] at h; cases h
+  · simp only [hr, if_false] at h
+    change Gen.Fee.package_fee v av af r = .ok p at h
+    unfold Gen.Fee.package_fee at h
+    by_cases hav : av < 0
+    · simp [hav] at h
+    · simp only [hav, if_false] at h
+      rw [valid_sats_amount_eq] at h
+      by_cases haf : 0 ≤ af ∧ af ≤ Gen.Fee.MAX_SATOSHI
+      · simp only [haf, and_self, if_true] at h
+        by_cases hv : v < 0
+        · rw [fee_from_vsize_neg v r hv] at h; cases h
+        · obtain ⟨n, rfl⟩ := Int.eq_ofNat_of_zero_le (show 0 ≤ v by omega)
+          obtain ⟨m, rfl⟩ := Int.eq_ofNat_of_zero_le (show 0 ≤ r by omega)
+          obtain ⟨k, rfl⟩ := Int.eq_ofNat_of_zero_le (show 0 ≤ av by omega)
+          have e2 : ((n : Int) + (k : Int)) = ((n + k : Nat) : Int) := by simp
+          rw [e2] at h
+          simp only [fee_from_vsize_nat] at h
+          have h : (max ((ceilK (m * n) : Nat) : Int) (((ceilK (m * (n + k)) : Nat) : Int) - af)) = p := by
+            cases h; rfl
+          have hm : Gen.Fee.MAX_SATOSHI = 2100000000000000 := rfl
+          have f2 : feeFromVsize ((n : Int) + (k : Int)) (m : Int) = .ok ((ceilK (m * (n + k)) : Nat) : Int) := by
+            rw [e2]; exact feeFromVsize_nat (n + k) m
+          refine ⟨by omega, by omega, by omega, haf.1, by omega,
+            ((ceilK (m * n) : Nat) : Int), ((ceilK (m * (n + k)) : Nat) : Int), feeFromVsize_nat n m, f2, ?_⟩
+          omega
+      · simp [haf] at h; cases h
+
+/-- `dust_threshold` is Bitcoin Core's `GetDustThreshold` (transcribed in `Btc.C18.Core`) for every
+    script — any length, witness program or not, unspendable → 0 — and every dust relay rate. -/
+theorem dust_threshold_is_core (spk : Bytes) (rate : Nat) :
+    dustThreshold spk (rate : Int) = .ok ((Core.getDustThreshold spk rate : Nat) : Int) := by
+  unfold dustThreshold
+  rw [feeRate_nat]
+  exact dust_threshold_gen_eq spk rate
+
+/-- a negative dust rate is refused -/
+theorem dust_threshold_negative_rate (spk : Bytes) (rate : Int) (h : rate < 0) :
+    dustThreshold spk rate = .error .value := by
+  unfold dustThreshold feeRate; simp [h]; rfl
+
+-- non-vacuity and Core's well-known figures at the default 3000 sat/kvB
+example : feeFromVsize 141 1500 = .ok 212 := by decide
+example : feeFromVsize 1 1 = .ok 1 := by decide
+example : packageFee 100 1000 200 50 = .ok 250 := by decide
+example : packageFee 100 1000 200 500 = .ok 100 := by decide
+example : Core.getDustThreshold ([0x76, 0xa9, 20] ++ List.replicate 20 7 ++ [0x88, 0xac]) 3000 = 546 := by decide
+example : Core.getDustThreshold ([0, 20] ++ List.replicate 20 7) 3000 = 294 := by decide
+example : Core.getDustThreshold ([0x51, 32] ++ List.replicate 32 7) 3000 = 330 := by decide
+example : Core.getDustThreshold ([0xa9, 20] ++ List.replicate 20 7 ++ [0x87]) 3000 = 540 := by decide
+example : Core.getDustThreshold [0x6a, 1, 2] 3000 = 0 := by decide
 
 end Props.C18
